@@ -62,7 +62,7 @@ theorem movesRel_insertMove_other (A : ADB) (hs : Sane A) (txSeq : Val) (l l' : 
   simp only [List.filter_append]
   rw [filter_map_ledger A.moves (·.ledger) l' _ (fun r => (patchMove_id ..).2.1)]
   have hl2 : ¬ l = l' := fun e => hl e.symm
-  simp only [List.filter_cons, newMove_fields, beq_iff_eq, hl2, List.filter_nil, List.append_nil]
+  simp only [List.filter_cons, newMove_fields, beq_iff_eq, hl2, List.filter_nil]
   have := Rel2.map_mem (R' := MoveC) (patchMove eff x amt src ex acc) (fun m : Move => m) h (by
     intro r _ m _ hr
     obtain ⟨_, _, _, p4, p5, p6, p7, p8, _⟩ := patchMove_id eff x amt src ex acc r
@@ -150,7 +150,7 @@ theorem movesRel_step (A : ADB) (v : View) (log : CLog) (hs : Sane A) (h : ∀ l
     rw [this]
     cases t with
     | account a => exact movesRel_congr (by simp [aHandle]) (h' l')
-    | transaction tid => exact movesRel_congr (by simp [aHandle, aUpdateTransactionMetadata, (aUpdateTxs_proj _ _ _).2.2.2.1]) (h' l')
+    | transaction tid => exact movesRel_congr (by simp [aHandle, aUpdateTransactionMetadata]) (h' l')
   | delMeta t k =>
     have : (step v ⟨l, id, d, ik, .delMeta t k⟩ l').moves = (v l').moves := by
       by_cases hl : l' = l
@@ -160,6 +160,6 @@ theorem movesRel_step (A : ADB) (v : View) (log : CLog) (hs : Sane A) (h : ∀ l
     rw [this]
     cases t with
     | account a => exact movesRel_congr (by simp [aHandle, aDeleteAccountMetadata]) (h' l')
-    | transaction tid => exact movesRel_congr (by simp [aHandle, aDeleteTransactionMetadata, (aUpdateTxs_proj _ _ _).2.2.2.1]) (h' l')
+    | transaction tid => exact movesRel_congr (by simp [aHandle, aDeleteTransactionMetadata]) (h' l')
 
 end StoreSql
